@@ -720,28 +720,35 @@ def effective_schedule(obs):
 
 
 META = {
-    'level_text': 'Theorems over a labelled transition system of the repaired client (one action per shared access of the caller, '
-                  'tx, rx and disconnecting threads; any number of callers, requests, reply orders, interleavings, disconnects at any '
-                  'point): reply_matches_partial (requests of known actions get a line that answers them), no_double_delivery, '
-                  'no_parking, the table facts (REQUEST2REPLY injective, no reply action starts with error_) by decide over the '
-                  'generated table; counter-traces reply_matches_fails (F21, recorded), reply_fresh_fails, '
-                  'no_parking_unlocked_fails (the client before the repair).  wait_bounded, disconnect_releases_all and '
-                  'shutdown_terminates are NOT proved (statements only): they are checked by the Lean monitors on every run of the '
-                  'real SecopClient under the deterministic scheduler (systematic exploration with <= 2/3 preemptions, then random).',
-    'level_note': 'Trusted: Lean kernel + propext/Classical.choice/Quot.sound; queue.Queue / Event / RLock semantics are those of '
-                  'vlib.sched (modelled, not verified); sections under the request lock are atomic in the model; the conversion of '
-                  'the effect log to labels (harness) and the JSON glue.',
+    'level_text': 'Three models of the repaired SecopClient, theorems for all reachable states (any number of callers, requests, '
+                  'lines, any interleaving, disconnects at any point).  (1) matching LTS, one action per shared access of caller, '
+                  'tx, rx and disconnecting threads: reply_matches_partial (known actions), no_double_delivery, no_parking, '
+                  'disconnect_releases_all (a lone disconnect can run to its end and releases every queued/filed/parked request), '
+                  'table facts by decide over the generated REQUEST2REPLY.  (2) timed layer (clock, put/wait deadlines, bounded '
+                  'txq): wait_bounded (every caller returns by t_put + 3 s + 10 s; fairness assumed only for the callers\' own '
+                  'timers).  (3) shutdown protocol (program counters of tx, rx and any number of user threads in disconnect(), '
+                  '_txthread/_rxthread, markers, joins): no_join_cycle, shutdown_terminates (deadlock-freedom after any shutdown '
+                  'request: user, peer, failing send, or several).  Counter-traces: reply_matches_fails (F21, recorded), '
+                  'reply_fresh_fails, no_parking_unlocked_fails (the client before the repair).  Model (1) is replayed against '
+                  'every run of the real client under a deterministic scheduler; the Lean monitors judge every run.',
+    'level_note': 'Trusted: Lean kernel + propext/Classical.choice/Quot.sound; queue.Queue / Event / RLock / join semantics are '
+                  'those of vlib.sched (modelled, not verified); sections under the request lock are atomic in the model; the '
+                  'conversion of the effect log to labels (harness) and the JSON glue.  Models (2) and (3) are tied to the source by '
+                  'reading (anchored comments) and by the generated constants, not by replay; the reconnect thread / connect() are '
+                  'outside all three models and are covered by schedule exploration only.',
     'trusted': [
         'vlib.sched primitives behave like threading/queue (one thread runs at a time, yield before every primitive)',
         'code executed under SecopClient._request_lock is atomic with respect to the other sections under that lock',
         'the effect-log -> label conversion in harness/props/c11.py (checked by the replay: every label must be enabled)',
-        'fewer than 30 requests are queued or parked at any time (queues never block on put)',
+        'fewer than 30 requests are queued or parked at any time in the untimed model (the timed layer models the bound)',
+        'timed layer: a caller whose put/wait time-out expired takes its step before the clock moves on (tick is not enabled past a blocked caller\'s deadline)',
     ],
     'modelled_not_verified': [
         'queue.Queue, threading.Event, threading.RLock, Thread.join',
         'AsynConn (scripted FakeConn: readline/send/shutdown/disconnect with the error behaviour of a TCP socket)',
         'decode_msg / encode_msg_frame, the cache update of update-class messages, callbacks',
-        'connect() / _reconnect (exercised by the harness, not part of the model)',
+        'connect() / _reconnect / the cancel event of the reconnect thread (exercised by the harness, not part of any model)',
+        'timed layer and shutdown-protocol model: transcribed from the source, not replayed against runs',
     ],
     'assumptions': ['request identifiers are not "." (the rx thread maps "." to None)',
                     'replies carry no request id: a line that matches syntactically and arrives while the request is filed is its '
